@@ -202,10 +202,10 @@ pub async fn scenario(w: World, h: Hist, trace: bool) -> Outcome {
                     assertions += 1;
                     if rel > 0 && !visible {
                         // which stronger-or-equal writer left before?
-                        let dep = l.departures.iter().rev().find(|(v, _)| st(*v) >= sw && *v != wi).map(|(_, k)| *k);
+                        let dep = l.departures.iter().rev().find(|(v, _)| *v != wi).map(|(_, k)| *k);
                         let (sig, why) = match dep {
                             Some(k) => (format!("no_handover|after={k}"), format!("the previous owner left by {k}")),
-                            None => ("strongest_writer_sample_missing".to_string(), "no stronger writer ever wrote the instance".to_string()),
+                            None => ("strongest_writer_sample_missing".to_string(), "no other writer has left the instance before".to_string()),
                         };
                         out.findings.push(Found {
                             sig,
